@@ -288,7 +288,14 @@ pub fn parse_divert_line(input: &str) -> Result<Vec<Node>, CompilerError> {
     // Helper to parse "target" or "target(arg1, arg2)" from a segment
     fn parse_segment(segment: &str) -> Result<(String, Vec<Expression>), CompilerError> {
         if let Some(open) = segment.find('(') {
-            let close = segment.rfind(')').unwrap_or(segment.len() - 1);
+            let close = segment
+                .rfind(')')
+                .filter(|close| *close > open)
+                .ok_or_else(|| {
+                    CompilerError::invalid_source(
+                        "divert arguments are missing the closing ')'".to_owned(),
+                    )
+                })?;
             let target = segment[..open].trim().to_owned();
             let args_str = &segment[open + 1..close];
             let mut args = Vec::new();
